@@ -12,7 +12,7 @@ use serde_json::{json, Value};
 
 pub struct C01;
 
-const FAMILIES: &[&str] = &["document", "mutated", "token-soup", "char-soup", "targeted", "deep", "long"];
+const FAMILIES: &[&str] = &["document", "mutated", "token-soup", "char-soup", "targeted", "deep", "long", "project-file"];
 
 fn doc_text(s: &mut Src, overflow: bool) -> (String, Vec<String>) {
     let cfg = GenCfg {
@@ -54,7 +54,7 @@ fn deep_type(s: &mut Src, depth: usize) -> TyM {
 }
 
 pub fn gen_text(s: &mut Src) -> (String, &'static str) {
-    let fam = s.weighted(&[14, 14, 7, 9, 10, 2, 1]);
+    let fam = s.weighted(&[14, 14, 7, 9, 10, 2, 1, 6]);
     let text = match fam {
         0 => doc_text(s, true).0,
         1 => {
@@ -110,6 +110,16 @@ pub fn gen_text(s: &mut Src) -> (String, &'static str) {
                 };
                 gaps.push(g);
             }
+            render::lay_out(&r.toks, &gaps).text
+        }
+        7 => {
+            // one file of a generated project (imports, forward declarations and references over
+            // a small adversarial name space: names equal to import paths, built-ins, ...)
+            let pc = gen::ProjectCfg::default();
+            let p = gen::project(s, &pc);
+            let f = s.pick(&p.files).clone();
+            let r = render::render(&f);
+            let gaps = gen::gaps(s, &LayoutCfg::default(), r.toks.len());
             render::lay_out(&r.toks, &gaps).text
         }
         5 => {
@@ -182,6 +192,47 @@ pub fn gen_text(s: &mut Src) -> (String, &'static str) {
         }
     };
     (text, FAMILIES[fam])
+}
+
+#[derive(Clone, Debug)]
+pub enum IdOp {
+    Add(String, String),
+    Remove(String),
+}
+
+/// op sequences (add / replace / remove / re-add) on one parser: after the sequence and after
+/// each intermediate validate the key set must be exactly the ids currently in the parser
+pub fn check_ops(ops: &[IdOp]) -> Result<(), String> {
+    use aidl_parser::Parser;
+    let mut model: std::collections::BTreeMap<String, String> = Default::default();
+    let mut p: Parser<String> = Parser::new();
+    for (step, op) in ops.iter().enumerate() {
+        match op {
+            IdOp::Add(id, t) => {
+                imp::guarded(|| p.add_content(id.clone(), t)).map_err(|e| format!("step {step} add_content: {e}"))?;
+                model.insert(id.clone(), t.clone());
+            }
+            IdOp::Remove(id) => {
+                imp::guarded(|| p.remove_content(id.clone())).map_err(|e| format!("step {step} remove_content: {e}"))?;
+                model.remove(id);
+            }
+        }
+        let res = imp::guarded(|| p.validate()).map_err(|e| format!("step {step} validate: {e}"))?;
+        let keys: std::collections::BTreeSet<&String> = res.keys().collect();
+        let ids: std::collections::BTreeSet<&String> = model.keys().collect();
+        if keys != ids {
+            return Err(format!("after step {step} ({}): validate() key set {keys:?} differs from the ids in the parser {ids:?}", match op {
+                IdOp::Add(id, _) => format!("add {id}"),
+                IdOp::Remove(id) => format!("remove {id}"),
+            }));
+        }
+        for (k, r) in &res {
+            if &r.id != k {
+                return Err(format!("result stored under id {k:?} is tagged {:?}", r.id));
+            }
+        }
+    }
+    Ok(())
 }
 
 pub fn check_files(files: &[(String, String)]) -> Result<(), String> {
@@ -280,7 +331,7 @@ impl Prop for C01 {
         "C01"
     }
     fn rule(&self) -> String {
-        "cases = sets of 1-6 (id, text) pairs from seven families (rendered document with random layout incl. overflowing transact codes; token-mutated document; token soup; character soup weighted to lexer-special characters, Unicode whitespace and multi-byte text; targeted injection of multi-byte doc comments / Unicode whitespace into every gap and chosen trivia after '=' of an overflowing code; generic nesting depth 5-64; long inputs up to 64 KiB). Oracle: add_content + validate return without panic, key set == id set, result.id == key. Non-trivial = non-empty, distinct by content, and (non-ASCII or malformed per the reference lexer+grammar or >= 2 files).".into()
+        "cases = sets of 1-6 (id, text) pairs from eight families (files of generated multi-file projects; rendered document with random layout incl. overflowing transact codes; token-mutated document; token soup; character soup weighted to lexer-special characters, Unicode whitespace and multi-byte text; targeted injection of multi-byte doc comments / Unicode whitespace into every gap and chosen trivia after '=' of an overflowing code; generic nesting depth 5-64; long inputs up to 64 KiB). Oracle: add_content + validate return without panic, key set == id set, result.id == key; one case in four is also replayed as an add / remove / re-add history on one parser with the key set checked after every step. Non-trivial = non-empty, distinct by content, and (non-ASCII or malformed per the reference lexer+grammar or >= 2 files).".into()
     }
     fn assumptions(&self) -> Vec<String> {
         vec![
@@ -306,7 +357,30 @@ impl Prop for C01 {
             let id = if i > 0 && s.chance(1, 10) { "f0".to_owned() } else { format!("f{i}") };
             files.push((id, t));
         }
-        self.check_case(&files, &fams, st, || bytes_case(bytes, json!({"files": files_json(&files)})))
+        self.check_case(&files, &fams, st, || bytes_case(bytes, json!({"files": files_json(&files)})))?;
+        // now and then: the same texts as an add / remove / re-add history on one parser
+        if s.chance(1, 4) {
+            let mut ops = Vec::new();
+            for (id, t) in &files {
+                ops.push(IdOp::Add(id.clone(), t.clone()));
+            }
+            let n = s.range(1, 4);
+            for _ in 0..n {
+                let (id, t) = s.pick(&files).clone();
+                match s.below(4) {
+                    0 => ops.push(IdOp::Remove(id)),
+                    1 => {
+                        ops.push(IdOp::Remove(id.clone()));
+                        ops.push(IdOp::Add(id, t));
+                    }
+                    2 => ops.push(IdOp::Add(id, t)),
+                    _ => ops.push(IdOp::Remove("never-added".to_owned())),
+                }
+            }
+            st.class("history:add-remove-readd");
+            check_ops(&ops).map_err(|e| Fail::new(e, bytes_case(bytes, json!({"files": files_json(&files), "ops": format!("{ops:?}")}))))?;
+        }
+        Ok(())
     }
     fn replay_other(&self, _env: &Env, case: &Value, st: &mut Stats) -> Result<(), Fail> {
         if case.get("kind").and_then(|k| k.as_str()) == Some("text") {
